@@ -72,6 +72,18 @@ CHECKS = {
    text="Deadlines made to expire after every row position (and already expired) for 30 query shapes; for P in {2,3} every non-empty subset of partitions × 5 failure modes (every k for mid-stream errors) × pushdown and non-pushdown queries with harness-registered handlers; a memory cap tripping at row 1000; and through the web API: query timeout, response-size estimate after every K <= 6, final size check, planning error on /immediate, /async, /run, then a cache hit and the permalink. Each faulted run must error, report the partition missing, answer non-200, or be complete.",
    note="Deadlines are outlasted deterministically, never raced. The RPC query path is exercised by C20 rather than here. /run and /async (5 s coalescing wait) are exercised for one query each.",
    ref="§3 C13"),
+ "C16": dict(cat="exploration", tech="exhaustive enumeration of bounded mutation operators over a seed corpus (SQL) and of a payload universe (inserts), each executed under recover() with a watchdog",
+   text="Every statement kind and unsupported SELECT construct, every single-token deletion / duplication / adjacent swap / truncation prefix of a 71-query corpus, every function name × arity 0..6 × argument kind × clause position, through sql.Parse, sql.TableFor, planner.Plan (local and clustered) and DB.Query; the full 26×26 product of value kinds as dim and value, every prefix and single-byte corruption of valid raw byte maps, on a standalone DB and through a cluster leader, plus web JSON bodies - each payload sandwiched between marker points that must both be ingested exactly once.",
+   note="The property speaks about parsing and planning: plans that panic only when executed (goexpr dimension functions fed wrong argument types) are counted, not reported. Unrecoverable crashes (D16 stack overflow, D17 out of memory) are observed in child processes and matched by their exact signature.",
+   ref="§3 C16"),
+ "C19": dict(cat="exploration", tech="complete enumeration of the request lattice over real gRPC and HTTP endpoints",
+   text="RPC (real gRPC on 127.0.0.1): server password {unset, set} × credential {none, wrong, right, prefix, longer} × {Query, Follow, remote-query handler registration followed by a leader query}; web (httptest with known cookie keys): OAuth {unset, set} × static password {unset, set} × 8 credentials (tokens, forged / garbage / future / just-expired / long-expired cookies) × {/immediate, /async, /cached/{permalink}}. Only valid credentials may obtain rows, WAL entries or query text; valid callers must be served.",
+   note="GitHub org verification cannot run offline: only its fail-closed direction is exercised; a well-signed unexpired session counts as verified.",
+   ref="§3 C19"),
+ "C20": dict(cat="exploration", tech="exhaustive round-trip enumeration through the real codec plus end-to-end differential over real gRPC",
+   text="Every valid expression tree of the generator (depth 2 quick / 3 thorough) as a field through rpc.Codec: same text, width, validity, shift and identical behaviour under every update sequence up to length 3 and under merges; every scalar type, series, rows, stats, metadata, queries, follow requests through their messages; 20 queries × 3 datasets embedded vs rpc client/server, and via a follower answering on behalf of the leader through ProcessRemoteQuery vs standalone.",
+   note="Partitions without a connected handler over RPC are C13's subject and mark a run incomplete here.",
+   ref="§3 C20"),
 }
 
 NOT_YET = {}
